@@ -7,6 +7,7 @@ package main
 // run, equal to the Lean model), then lets a fresh child resume to the tip and compares again.
 
 import (
+	"sync"
 	"encoding/json"
 	"flag"
 	"fmt"
@@ -246,10 +247,10 @@ func scenCrash(rep *Report, tier string, seed int64) {
 	}
 	if tier == "thorough" {
 		for i, sp := range spans {
-			addSpan(sp, i%7 == 0)
+			addSpan(sp, i%4 == 0)
 		}
 	} else {
-		for i := 0; i < 5 && len(spans) > 0; i++ {
+		for i := 0; i < 14 && len(spans) > 0; i++ {
 			addSpan(spans[r.Intn(len(spans))], false)
 		}
 		// always include the busiest block
@@ -266,62 +267,80 @@ func scenCrash(rep *Report, tier string, seed int64) {
 	for _, st := range ref.Stmts {
 		stmtKind[st.N] = st
 	}
+	var todo []int
 	for _, n := range points {
 		if n < 1 || n > ref.Total || seen[n] {
 			continue
 		}
 		seen[n] = true
-		cdir, _ := ioutil.TempDir(dir, "k")
-		code, out := runChild("child-sync", "-chain", ref.ChainFn, "-dir", cdir, "-killat", fmt.Sprint(n), "-upto", fmt.Sprint(tip))
-		st := stmtKind[n]
-		key := fmt.Sprintf("%s|%s", st.Kind, st.Site)
-		rep.Case(key, true)
-		rep.Count("kill:" + st.Kind)
-		if code != -1 && !strings.Contains(out, "signal: killed") && code != 137 {
-			// the child was expected to die
-			if code == 0 {
-				rep.Note("kill point %d was never reached (child finished)", n)
-				os.RemoveAll(cdir)
-				continue
+		todo = append(todo, n)
+	}
+	// the kills are independent child processes: eight at a time
+	var mu sync.Mutex
+	var wg sync.WaitGroup
+	sem := make(chan struct{}, 8)
+	for _, n := range todo {
+		n := n
+		wg.Add(1)
+		sem <- struct{}{}
+		go func() {
+			defer wg.Done()
+			defer func() { <-sem }()
+			cdir, _ := ioutil.TempDir(dir, "k")
+			defer os.RemoveAll(cdir)
+			code, out := runChild("child-sync", "-chain", ref.ChainFn, "-dir", cdir, "-killat", fmt.Sprint(n), "-upto", fmt.Sprint(tip))
+			st := stmtKind[n]
+			dbPath := filepath.Join(cdir, "sql.db.v4")
+			k := CommittedSynced(dbPath)
+			dump, derr := DumpDB(dbPath)
+			reached := !(code != -1 && !strings.Contains(out, "signal: killed") && code != 137 && code == 0)
+			var code2 int
+			var out2 string
+			var final []string
+			if reached && derr == nil {
+				code2, out2 = runChild("child-sync", "-chain", ref.ChainFn, "-dir", cdir, "-upto", fmt.Sprint(tip))
+				if code2 == 0 {
+					final, _ = DumpDB(dbPath)
+				}
 			}
-		}
-		dbPath := filepath.Join(cdir, "sql.db.v4")
-		k := CommittedSynced(dbPath)
-		dump, err := DumpDB(dbPath)
-		if err != nil {
-			rep.Violate("crash:unreadable", fmt.Sprintf("database unreadable after kill before statement %d (%s %s): %v", n, st.Kind, st.SQL, err), "")
-			os.RemoveAll(cdir)
-			continue
-		}
-		want, okh := ref.Dumps[k]
-		if !okh {
-			want = ref.Dumps[-1]
-		}
-		if diff := FirstDiff(dump, want); diff != "" {
-			path := WriteReplay(rep.Property, "crash", Replay{Property: rep.Property, Scenario: "crash", Seed: seed, Setup: s,
-				What: fmt.Sprintf("after SIGKILL before statement %d (%s %q at %s) the database (sync height %d) is not the ledger of the blocks up to that height", n, st.Kind, st.SQL, st.Site, k),
-				Detail: []string{diff}, Blocks: ChainJSON(ref.Chain)})
-			rep.Violate("crash:partial:"+st.Kind+":"+st.Site, fmt.Sprintf("kill before statement %d (%s %s): %s", n, st.Kind, st.SQL, diff), path)
-		}
-		// resume
-		code2, out2 := runChild("child-sync", "-chain", ref.ChainFn, "-dir", cdir, "-upto", fmt.Sprint(tip))
-		if code2 != 0 {
-			path := WriteReplay(rep.Property, "crash-resume", Replay{Property: rep.Property, Scenario: "crash", Seed: seed, Setup: s,
-				What: fmt.Sprintf("after a kill before statement %d the daemon cannot resume to the tip", n), Detail: []string{out2}, Blocks: ChainJSON(ref.Chain)})
-			rep.Violate("crash:resume-stuck:"+st.Kind, fmt.Sprintf("resume after kill at %d failed: %.200s", n, out2), path)
-		} else {
-			final, _ := DumpDB(dbPath)
-			if diff := FirstDiff(dropBackfill(final), dropBackfill(ref.Dumps[int64(tip)])); diff != "" {
+			mu.Lock()
+			defer mu.Unlock()
+			key := fmt.Sprintf("%s|%s", st.Kind, st.Site)
+			rep.Case(key, true)
+			rep.Count("kill:" + st.Kind)
+			if !reached {
+				rep.Note("kill point %d was never reached (child finished)", n)
+				return
+			}
+			if derr != nil {
+				rep.Violate("crash:unreadable", fmt.Sprintf("database unreadable after kill before statement %d (%s %s): %v", n, st.Kind, st.SQL, derr), "")
+				return
+			}
+			want, okh := ref.Dumps[k]
+			if !okh {
+				want = ref.Dumps[-1]
+			}
+			if diff := FirstDiff(dump, want); diff != "" {
+				path := WriteReplay(rep.Property, "crash", Replay{Property: rep.Property, Scenario: "crash", Seed: seed, Setup: s,
+					What:   fmt.Sprintf("after SIGKILL before statement %d (%s %q at %s) the database (sync height %d) is not the ledger of the blocks up to that height", n, st.Kind, st.SQL, st.Site, k),
+					Detail: []string{diff}, Blocks: ChainJSON(ref.Chain)})
+				rep.Violate("crash:partial:"+st.Kind+":"+st.Site, fmt.Sprintf("kill before statement %d (%s %s): %s", n, st.Kind, st.SQL, diff), path)
+			}
+			if code2 != 0 {
+				path := WriteReplay(rep.Property, "crash-resume", Replay{Property: rep.Property, Scenario: "crash", Seed: seed, Setup: s,
+					What: fmt.Sprintf("after a kill before statement %d the daemon cannot resume to the tip", n), Detail: []string{out2}, Blocks: ChainJSON(ref.Chain)})
+				rep.Violate("crash:resume-stuck:"+st.Kind, fmt.Sprintf("resume after kill at %d failed: %.200s", n, out2), path)
+			} else if diff := FirstDiff(dropBackfill(final), dropBackfill(ref.Dumps[int64(tip)])); diff != "" {
 				path := WriteReplay(rep.Property, "crash-resume", Replay{Property: rep.Property, Scenario: "crash", Seed: seed, Setup: s,
 					What: fmt.Sprintf("resuming after a kill before statement %d yields a different ledger", n), Detail: []string{diff}, Blocks: ChainJSON(ref.Chain)})
 				rep.Violate("crash:resume-differs:"+st.Kind+":"+st.Site, diff, path)
 			}
-		}
-		if len(rep.Samples) < 4 {
-			rep.Sample(map[string]interface{}{"kill_before_statement": n, "kind": st.Kind, "sql": st.SQL, "site": st.Site, "synced_after_kill": k})
-		}
-		os.RemoveAll(cdir)
+			if len(rep.Samples) < 4 {
+				rep.Sample(map[string]interface{}{"kill_before_statement": n, "kind": st.Kind, "sql": st.SQL, "site": st.Site, "synced_after_kill": k})
+			}
+		}()
 	}
+	wg.Wait()
 	rep.Distribution["statements_in_reference_run"] = ref.Total
 	rep.Distribution["block_transactions"] = len(spans)
 	rep.Rule = "one evaluation = one real SIGKILL of a child daemon right before a numbered SQL statement (BEGIN, each statement of the block, COMMIT, right after COMMIT), followed by re-opening the file, comparing with the reference ledger of the recorded height and resuming to the tip; distinct = distinct (statement kind, call site in /repo)"
